@@ -245,6 +245,10 @@ func c10PatchMuts(s *c10Stream) []c10Mut {
 			maxTsize = f.Size
 		}
 	}
+	// running state of the bsdiff series being walked: old offset before the current control and
+	// size of the old file (so that seeks landing just before 0 / exactly at / just past the end
+	// of the old file can be aimed at)
+	bsOff, bsOld := int64(0), int64(0)
 	for i, m := range s.Msgs {
 		i := i
 		switch x := m.(type) {
@@ -313,6 +317,10 @@ func c10PatchMuts(s *c10Stream) []c10Mut {
 				add("op.data-as-control-eof", fmt.Sprintf("msg %d SyncOp DATA blockSpan=1", i), func(s *c10Stream) { s.Msgs[i].(*pwr.SyncOp).BlockSpan = 1 })
 			}
 		case *pwr.BsdiffHeader:
+			bsOff, bsOld = 0, 0
+			if x.TargetIndex >= 0 && x.TargetIndex < nT {
+				bsOld = s.TC.Files[x.TargetIndex].Size
+			}
 			for _, v := range c10Uniq([]int64{-1, 0, nT - 1, nT, nT + 6, 2049, c10Big62}) {
 				v := v
 				if v == x.TargetIndex {
@@ -328,7 +336,9 @@ func c10PatchMuts(s *c10Stream) []c10Mut {
 					mid = "-mid"
 				}
 			}
-			for _, v := range c10Uniq([]int64{-1, 1, -c10Big62, c10Big62, -(maxTsize + 1), maxTsize, maxTsize + 1, 1<<63 - 1, -1 << 63}) {
+			after := bsOff + int64(len(x.Add)) // old offset after the add, before the seek
+			for _, v := range c10Uniq([]int64{-1, 1, -c10Big62, c10Big62, -(maxTsize + 1), maxTsize, maxTsize + 1, 1<<63 - 1, -1 << 63,
+				-after - 5, -after - 1, -after, bsOld - after, bsOld - after + 1, bsOld - after - 1}) {
 				v := v
 				if v == x.Seek {
 					continue
@@ -349,6 +359,7 @@ func c10PatchMuts(s *c10Stream) []c10Mut {
 				}
 				add("ctl.copy"+mid, fmt.Sprintf("msg %d Control.copy=%dB", i, v), func(s *c10Stream) { s.Msgs[i].(*bsdiff.Control).Copy = make([]byte, v) })
 			}
+			bsOff = after + x.Seek
 			add("ctl.eof"+mid, fmt.Sprintf("msg %d Control.eof flipped", i), func(s *c10Stream) { c := s.Msgs[i].(*bsdiff.Control); c.Eof = !c.Eof })
 		}
 		// structural mutations at position i
@@ -716,7 +727,7 @@ func runC10(c *Ctx) error {
 			// keep every mutation class represented: stable-sort the shuffled order round-robin by class
 			order = c10RoundRobin(cr, order, func(i int) string { return b.muts[i].Class }, b.name == "opt")
 			budget := perBase
-			if b.name == "sig" || b.name == "ovl" {
+			if b.name == "sig" {
 				budget = perBase / 2
 			}
 			if b.name == "opt" {
@@ -847,10 +858,13 @@ func runC10(c *Ctx) error {
 					sorted = t
 				}
 				for _, o := range sorted {
-					if fr.Algo != pwr.CompressionAlgorithm_NONE && !c10Deep(c) && len(full) <= every && o%2 == 1 && o > 16 && o < len(full)-8 {
-						continue // compressed framing, quick tier: every other offset
+					if fr.Algo != pwr.CompressionAlgorithm_NONE && !c10Deep(c) && len(full) <= every && o%3 != 0 && o > 16 && o < len(full)-8 {
+						continue // compressed framing, quick tier: every third offset
 					}
 					feeders := c10FeedersFor(b.name, cr, false)
+					if !c10Deep(c) && len(feeders) > 1 && o%2 == 1 {
+						feeders = feeders[:1] // quick tier: the optimizer sees every other truncation
+					}
 					for _, fd := range feeders {
 						p := &c10Plan{Scenario: sc.Name, Base: b.name, Class: "trunc/" + b.name, Desc: fmt.Sprintf("truncated at byte %d of %d", o, len(full)), Framing: fr, Feeder: fd,
 							Stream: b.s, Bytes: full[:o], TruncAt: o, Tail: "-", sc: sc}
